@@ -11,6 +11,8 @@
      const 0; ne  around an if/else;  casts between types that share a WebAssembly type emit
      nothing;  float -> int uses the trapping trunc;  '^' calls the import math.pow_<type>;
    * an if / else-if condition held in an i64 / f32 / f64 register is compared with zero first;
+   * loops: block $break { loop { … } } with labels computed from the block nesting depth
+     (statement/loop.go); break / continue count as diverging statements;
    * float '%' is a compile error;  statements after a diverging statement are not compiled;
      an if/else whose branches all return is followed by  unreachable.
    No proofs in this file. *)
@@ -197,8 +199,26 @@ Section Expr.
 
   Variable ret : ty.
 
+  (* loop context: (BreakDepth, ContinueDepth) of the innermost enclosing loop
+     (compiler/context LoopEntry); [d] is the current WASM block nesting depth. A branch to the
+     loop's label is  br (d - depth of that label)  (loop.go compileBreakStatement). *)
+  Definition loopctx := option (nat * nat).
+
+  (* for-range: exit test, with and without an explicit step (loop.go compileForRange) *)
+  Definition range_exit (t : ity) (i lim : nat) (stp : option nat) : list instr :=
+    match stp with
+    | None => [LGet i; LGet lim; cmp_op CGe (TI t)]
+    | Some j =>
+        [LGet j; IConst (regw t) 0; cmp_op CGt (TI t);
+         If (Some (VTI W32)) [LGet i; LGet lim; cmp_op CGe (TI t)]
+                             (Some [LGet i; LGet lim; cmp_op CLe (TI t)])]
+    end.
+  Definition range_incr (t : ity) (i : nat) (stp : option nat) : list instr :=
+    [LGet i; match stp with Some j => LGet j | None => IConst (regw t) 1 end;
+     IBin (regw t) IAdd; LSet i].
+
   (* code and "diverged" *)
-  Fixpoint cstmt (s : stmt) : option (list instr * bool) :=
+  Fixpoint cstmt (d : nat) (lp : loopctx) (s : stmt) : option (list instr * bool) :=
     match s with
     | SDecl i t e =>
         match nth_error tys i with
@@ -222,12 +242,13 @@ Section Expr.
         | None => None
         end
     | SIf c th el =>
-        match ccond c, cblock th with
+        (* the if block and every else-if nest one WASM block deeper (ctx.EnterBlock) *)
+        match ccond c, cblock (S d) lp th with
         | Some cc, Some (cth, dth) =>
             match el with
             | ElNone => Some (cc ++ [If None cth None], false)
             | _ =>
-                match cels el with
+                match cels (S d) lp el with
                 | Some (cel, has_else, dall) =>
                     let all := has_else && dth && dall in
                     Some (cc ++ [If None cth (Some cel)] ++ (if all then [Unreachable] else []), all)
@@ -238,25 +259,66 @@ Section Expr.
         end
     | SReturn e =>
         match cexpr_to None e ret with Some c => Some (c ++ [Return], true) | None => None end
+    | SFor c b =>
+        (* block $break { loop $continue { cond; eqz; br_if 1; body; br 0 } } *)
+        match ccond c, cblock (S (S d)) (Some (S d, S (S d))) b with
+        | Some cc, Some (cb, _) =>
+            Some ([Block [Loop (cc ++ [IEqz32; BrIf 1] ++ cb ++ [Br 0])]], false)
+        | _, _ => None
+        end
+    | SLoop b =>
+        match cblock (S (S d)) (Some (S d, S (S d))) b with
+        | Some (cb, _) => Some ([Block [Loop (cb ++ [Br 0])]], false)
+        | None => None
+        end
+    | SRange i lim t start stop step b =>
+        (* start -> i; stop -> limit; step -> __for_step;
+           block $break { loop { exit test; br_if 1; block $continue { body }; i += step; br 0 } } *)
+        let hint := Some (TI t) in
+        match (match start with
+               | Some e => cexpr_to hint e (TI t)
+               | None => Some [IConst (regw t) 0]
+               end),
+              cexpr_to hint stop (TI t),
+              (match step with
+               | Some (j, e) => match cexpr_to hint e (TI t) with
+                                | Some c => Some (c ++ [LSet j])
+                                | None => None
+                                end
+               | None => Some []
+               end),
+              cblock (S (S (S d))) (Some (S d, S (S (S d)))) b with
+        | Some c0, Some cl, Some cs, Some (cb, _) =>
+            let stp := match step with Some (j, _) => Some j | None => None end in
+            Some (c0 ++ [LSet i] ++ cl ++ [LSet lim] ++ cs ++
+                  [Block [Loop (range_exit t i lim stp ++ [BrIf 1] ++ [Block cb] ++
+                                range_incr t i stp ++ [Br 0])]], false)
+        | _, _, _, _ => None
+        end
+    | SBreak =>
+        match lp with Some (bd, _) => Some ([Br (d - bd)], true) | None => None end
+    | SContinue =>
+        match lp with Some (_, cd) => Some ([Br (d - cd)], true) | None => None end
     end
-  with cblock (b : block) : option (list instr * bool) :=
+  with cblock (d : nat) (lp : loopctx) (b : block) : option (list instr * bool) :=
     match b with
     | BNil => Some ([], false)
     | BCons s r =>
-        match cstmt s with
+        match cstmt d lp s with
         | Some (cs, true) => Some (cs, true)          (* the rest of the block is not compiled *)
         | Some (cs, false) =>
-            match cblock r with Some (cr, d) => Some (cs ++ cr, d) | None => None end
+            match cblock d lp r with Some (cr, dd) => Some (cs ++ cr, dd) | None => None end
         | None => None
         end
     end
-  (* body of the else part, "a final else clause exists", "all remaining branches diverge" *)
-  with cels (el : els) : option (list instr * bool * bool) :=
+  (* body of the else part, "a final else clause exists", "all remaining branches diverge";
+     [d] = depth inside the enclosing if *)
+  with cels (d : nat) (lp : loopctx) (el : els) : option (list instr * bool * bool) :=
     match el with
     | ElNone => Some ([], false, false)
-    | ElElse b => match cblock b with Some (cb, d) => Some (cb, true, d) | None => None end
+    | ElElse b => match cblock d lp b with Some (cb, dd) => Some (cb, true, dd) | None => None end
     | ElElif c th el' =>
-        match ccond c, cblock th, cels el' with
+        match ccond c, cblock (S d) lp th, cels (S d) lp el' with
         | Some cc, Some (cth, dth), Some (cel, has_else, dall) =>
             Some (cc ++ [If None cth (Some cel)], has_else, dth && dall)
         | _, _, _ => None
@@ -270,6 +332,9 @@ Fixpoint decls_stmt (s : stmt) : list (nat * ty) :=
   match s with
   | SDecl i t _ => [(i, t)]
   | SIf _ th el => decls_block th ++ decls_els el
+  | SFor _ b | SLoop b => decls_block b
+  | SRange i lim t _ _ step b =>
+      (i, TI t) :: (lim, TI t) :: match step with Some (j, _) => [(j, TI t)] | None => [] end ++ decls_block b
   | _ => []
   end
 with decls_block (b : block) : list (nat * ty) :=
@@ -295,7 +360,7 @@ Definition locals_ok (f : func) : bool :=
         end) (map snd d) (f_locals f).
 
 Definition compile (f : func) : option wfunc :=
-  match cblock (f_tys f) (f_ret f) (f_body f) with
+  match cblock (f_tys f) (f_ret f) 0 None (f_body f) with
   | Some (c, _) =>
       Some {| w_params := map vt_of (f_params f);
               w_locals := map vt_of (map snd (decls_block (f_body f)));
